@@ -70,7 +70,7 @@ static void gen_mul(const GenCtx &ctx, Case &c, int viewpct) {
     l = g::dim(std::min(capv, 160));
     n = g::dim(std::max(capv, 200));
   } else {
-    k = rt->param == 1 ? g::rng(0, 10) : 0;
+    k = rt->param == 1 ? g::wpick<int>({{8, g::rng(0, 10)}, {1, g::rng(11, 16)}}) : 0;  // M4RM clamps an explicit k to [2, 8]
     int kk = k ? 8 * std::max(2, std::min(8, k)) : 64;
     std::vector<int> thr = {16, 54, 64, kk, 2 * kk, 3 * kk, vf_cfg_mul_blocksize()};
     int cls = g::rng(0, 9);
